@@ -42,7 +42,9 @@ BigDocsApply == {Wide(1001), Wide(1200), VObj(<< <<KA, Wide(1001)>> >>), TenA}
 
 \* ---- pointers worth trying in a document ----
 \* index tokens congruent to small indices modulo 2^32 / 2^64, and 2^31: they designate nothing
-BigIdx == {<<52, 50, 57, 52, 57, 54, 55, 50, 57, 54>>, <<52, 50, 57, 52, 57, 54, 55, 50, 57, 55>>, <<49, 56, 52, 52, 54, 55, 52, 52, 48, 55, 51, 55, 48, 57, 53, 53, 49, 54, 49, 54>>, <<49, 56, 52, 52, 54, 55, 52, 52, 48, 55, 51, 55, 48, 57, 53, 53, 49, 54, 49, 55>>, <<50, 49, 52, 55, 52, 56, 51, 54, 52, 56>>}
+\* member names of 256 and 300 bytes (under object, array and scalar parents)
+LongTok == {[i \in 1..256 |-> 97], [i \in 1..300 |-> IF i = 299 THEN 126 ELSE IF i = 300 THEN 49 ELSE 97]}
+BigIdx == LongTok \cup {<<52, 50, 57, 52, 57, 54, 55, 50, 57, 54>>, <<52, 50, 57, 52, 57, 54, 55, 50, 57, 55>>, <<49, 56, 52, 52, 54, 55, 52, 52, 48, 55, 51, 55, 48, 57, 53, 53, 49, 54, 49, 54>>, <<49, 56, 52, 52, 54, 55, 52, 52, 48, 55, 51, 55, 48, 57, 53, 53, 49, 54, 49, 55>>, <<50, 49, 52, 55, 52, 56, 51, 54, 52, 56>>}
 PtrsOf(d) == {PointerTo(d, p) : p \in PathsOf(d)}
 Beyond(d) == UNION {{q \o <<47>> \o t : t \in {<<120>>, <<45>>, <<48>>, <<49>>, <<50>>, <<51>>, <<48, 49>>, <<>>, KA, <<97, 126, 49, 98>>, <<109, 126, 48, 110>>} \cup BigIdx} : q \in PtrsOf(d)}
 Odd == {<<97>>, <<47, 126, 50>>, <<47, 97, 47, 126>>}
@@ -95,7 +97,8 @@ MVals0 == {N1, VNull, S(<<120>>), VArr(<<N1>>)}
 MObj1 == ObjsOver(MVals0, {KA, KAA}, 2, TRUE)
 MVals1 == MVals0 \cup MObj1
 MObj2 == ObjsOver({N1, VNull} \cup ObjsOver({N1, VNull}, {KA, KAA}, 1, TRUE), {KA, KB}, 2, TRUE)
-MObj3 == ObjsOver({N1, VNull, S(<<120>>)} \cup ObjsOver({N1, VNull} \cup ObjsOver({N1, VNull}, {KA}, 1, TRUE), {KA, KAA}, 2, TRUE), {KA, KB}, 2, TRUE)
+\* three levels: null members and replacements at every depth (kept narrow: the universe is squared)
+MObj3 == ObjsOver({N1, VNull} \cup ObjsOver({N1, VNull} \cup ObjsOver({N1, VNull}, {KA}, 1, TRUE), {KA}, 1, TRUE), {KA, KB}, 2, TRUE)
 MergeUniverse == IF Tier = "quick" THEN MVals0 \cup MObj1 ELSE IF Tier = "deep" THEN MVals0 \cup MObj1 \cup MObj2 \cup MObj3 ELSE MVals0 \cup MObj1 \cup MObj2
 
 \* ---- pairs for generation ----
@@ -124,7 +127,11 @@ PairUniverse0 == IF Tier = "quick" THEN PLeaf \cup ArrsOver({N1, N2}, 2) \cup Ob
 
 \* members whose names start with a byte >= 0x80 next to ASCII names, with different key sets on the two sides
 HiDocs == ObjsOver({N1, N2}, {KA, KHi1, <<122>>}, 2, TRUE) \cup {VObj(<< <<KA, N1>>, <<KHi1, N2>>, <<<<122>>, N1>> >>), VObj(<< <<KHi3, N1>>, <<KA, N1>>, <<KHi1, N2>> >>)}
-PairUniverse == NumDocs \cup HiDocs \cup PairUniverse0
+\* a pointer of more than 4 KiB below an array element that is followed by another common element (only paired with one another)
+K4100 == [i \in 1..4100 |-> IF i = 2000 THEN 47 ELSE 107]
+LongPath(x, y, z) == VArr(<< VObj(<< <<K4100, VObj(<< <<KA, x>> >>)>> >>), y, VArr(<<z>>) >>)
+LongDocs == {LongPath(N1, N1, N1), LongPath(N2, N2, N1), LongPath(N1, N2, N2), LongPath(N2, N1, N2)}
+PairUniverse == NumDocs \cup HiDocs \cup PairUniverse0 \cup LongDocs
 
 Init == /\ phase = 0 /\ b = VNull
         /\ a \in (IF Mode = "apply" THEN DocsApply \cup (IF Tier = "quick" THEN {} ELSE Doc1 \cup BigDocsApply) ELSE IF Mode = "merge" THEN MergeUniverse ELSE PairUniverse)
@@ -148,7 +155,7 @@ Step ==
             /\ Assert(~HasNullMember(r) \/ b'.t # "obj" \/ HasNullMember(a), "RFC 7396: null members delete")
             /\ (Emit => PrintT(ToJson(<<"M", JV(a), JV(b'), JV(r)>>)))
     [] OTHER ->
-         /\ b' \in PairUniverse
+         /\ b' \in (IF a \in LongDocs THEN LongDocs ELSE PairUniverse \ LongDocs)
          /\ Assert(\A x, y \in PNums \cup {N_one, N_two} : ~Straddle(x, y), "the pair universe must not contain numbers within the tolerance whose integer views differ")
          /\ LET p == GeneratePatchesImpl(a, b') r == ApplyRFC(a, p) IN
             Assert(r.ok /\ SemEq(r.doc, b', TRUE) /\ ((p.m = <<>>) <=> SemEq(a, b', TRUE)), <<"C17: create_patches transcription: the patch does not transform from into to", a, b', p>>)
